@@ -165,7 +165,7 @@ def run(chk):
     chk.stub('numqi.group.spf2.int_to_bitarray / bitarray_to_int -> little-endian bits of a 64-bit vector (validated exhaustively against the real functions for widths 1..12 on this run)')
     nmax = 2 if quick else 3
     tmax = 2 if quick else 3
-    chk.bound(n_tuple=f'1..{nmax} (digits symbolic, constrained only to be below their base)', n_matrix=f'1..{min(nmax, 2)} (symbolic symplectic matrix)',
+    chk.bound(n_tuple=f'1..{nmax} (digits symbolic, constrained only to be below their base; for n=3 the base-63 digit is enumerated in 63 partitions)', n_matrix=f'1..{min(nmax, 2)} (symbolic symplectic matrix)',
               n_transvection=f'1..{tmax} (all ordered pairs of non-zero vectors)')
     chk.out_of_claim('n above the bounds; schmidt_orthogonalization; Python big-int overflow of int_to_bitarray (digits are assumed in range)')
     # ---- get_number
@@ -192,28 +192,39 @@ def run(chk):
             ok = tuple(h.shape) == (2, 2 * n) and h.dtype == U8
             chk.add(f'transvection(v0, *find_transvection(v0,v1)) == v1 [n={n}] path {pi}', nz + path.pc, ir.band(eq_arr(got, v1), ir.bconst(ok)) if ok else ir.FALSE, key='find_transvection does not map v0 to v1', replay=rp)
     # ---- tuple -> matrix -> tuple
-    for n in range(1, nmax + 1):
+    def tuple_block(c, n, fixed=None):
+        """fixed: {digit index: concrete value} (partition of the digit domain; the other digits stay symbolic)"""
         t, inr = digits(f't{n}_', n)
+        t = tuple(S.bv_const(int(fixed[k]), I64) if fixed and k in fixed else v for k, v in enumerate(t))
+        tagf = '' if not fixed else ' ' + ','.join(f'digit{k}={v}' for k, v in sorted(fixed.items()))
 
         def f_t():
             M = sp.from_int_tuple(t)
             return M, sp.to_int_tuple(M)
         paths, st = H.run_paths(f_t, inr, extra_globals=STUBS)
-        chk.add_path_stats(st)
-        chk.configurations += 1
-        rp = ('c09', lambda m, t=t: tpay(m, t))
+        c.add_path_stats(st)
+        c.configurations += 1
+        rp = ('c09', lambda m, t=t: {'what': 'tuple', 't': [int(v.const_value()) if v.isconst else int(m.get(v.n.val, 0)) for v in t]})
         for pi, path in enumerate(paths):
             pre = inr + path.pc
             if path.status != 'return':
-                chk.add(f'from_int_tuple/to_int_tuple raises {type(path.value).__name__} for in-range digits [n={n}] path {pi}', pre, ir.FALSE, key='from_int_tuple raises', replay=rp)
+                c.add(f'from_int_tuple/to_int_tuple raises {type(path.value).__name__} for in-range digits [n={n}{tagf}] path {pi}', pre, ir.FALSE, key='from_int_tuple raises', replay=rp)
                 continue
             M, back = path.value
             symp = ir.band_all(symplectic_constraints(M, n))
             binary = ir.band_all(S.as_sb(e <= 1).n for e in H.elems(M))
             rt = ir.band_all(S.as_sb(a == b).n for a, b in zip(back, t)) if len(back) == len(t) else ir.FALSE
-            chk.add(f'from_int_tuple(t) is a symplectic 0/1 uint8 matrix and to_int_tuple inverts it [n={n}] path {pi}', pre,
-                    ir.band(ir.band(symp, binary), ir.band(rt, ir.bconst(M.dtype == U8))), key='from_int_tuple not symplectic / not injective', replay=rp)
-        chk.add(f'reach tuple [n={n}]', inr, ir.TRUE, kind='reach')
+            c.add(f'from_int_tuple(t) is a symplectic 0/1 uint8 matrix and to_int_tuple inverts it [n={n}{tagf}] path {pi}', pre,
+                  ir.band(ir.band(symp, binary), ir.band(rt, ir.bconst(M.dtype == U8))), key='from_int_tuple not symplectic / not injective', replay=rp)
+        c.add(f'reach tuple [n={n}{tagf}]', inr, ir.TRUE, kind='reach')
+    for n in range(1, min(nmax, 2) + 1):
+        tuple_block(chk, n)
+    if nmax >= 3:
+        # n=3 (1,451,520 tuples): the digit with the largest base (63) is enumerated, the other five stay symbolic; one forked child per value.
+        # Together with get_number (|tuples| == |Sp(6,2)|) injectivity of the round trip gives bijectivity for n=3.
+        base3 = sp.get_number(3, 'base')
+        kbig = max(range(len(base3)), key=lambda k: base3[k])
+        chk.run_partitioned([(f'n=3 digit{kbig}={v}', (lambda c, v=v: tuple_block(c, 3, {kbig: v}))) for v in range(base3[kbig])], timeout_s=120)
     # ---- matrix -> tuple -> matrix (surjectivity), inverse
     for n in range(1, min(nmax, 2) + 1):
         M = bits(f'm{n}', (2 * n, 2 * n))
